@@ -2,6 +2,7 @@ package transaction
 
 import (
 	"crypto/elliptic"
+	"encoding/json"
 	"errors"
 	"fmt"
 	"math/big"
@@ -31,6 +32,19 @@ var (
 	_ = stackitem.Convertible(&Signer{})
 	_ = smartcontract.Convertible(&Signer{})
 )
+
+// UnmarshalJSON implements the json.Unmarshaler interface. A null group key is
+// not a key: no other form of a signer can represent it.
+func (c *Signer) UnmarshalJSON(data []byte) error {
+	type signerAux Signer
+	if err := json.Unmarshal(data, (*signerAux)(c)); err != nil {
+		return err
+	}
+	if slices.Contains(c.AllowedGroups, nil) {
+		return errors.New("null group key")
+	}
+	return nil
+}
 
 // EncodeBinary implements the Serializable interface.
 func (c *Signer) EncodeBinary(bw *io.BinWriter) {
